@@ -95,15 +95,24 @@ func (x *Exec) nonNilCall(st *State, isnil *Term, what string, in ssa.Instructio
 	st.assume(Not(isnil))
 }
 
-// inline executes a (closure or contract-less helper) body in place; loop-free bodies only.
+// inline executes a closure or a contract-less, loop-free, non-recursive helper of the repository in
+// place: its strongest post-condition is computed, not assumed. Several return paths fork the caller.
 func (x *Exec) inline(st *State, fn *ssa.Function, args []Value, bindings []Value, in ssa.Instruction) Value {
 	if len(fn.Blocks) == 0 {
 		panic("unsupported:call of external function " + fn.String())
 	}
-	sub := &Exec{V: x.V, fn: fn, sigma: x.sigma, run: x.run, inst: x.inst + "/" + fn.Name(), emitSafe: x.emitSafe, props: x.props, holes: x.holes, names: map[string]Value{}}
+	if x.inlineDepth >= 4 {
+		panic("unsupported:helper nesting too deep or recursive " + fn.String())
+	}
+	sub := &Exec{V: x.V, fn: fn, sigma: x.sigma, run: x.run, inst: x.inst, emitSafe: x.emitSafe, props: x.props, holes: x.holes, names: map[string]Value{},
+		assumeOK: x.assumeOK, assumeBeh: x.assumeBeh, onCall: x.onCall, rtMode: x.rtMode, inlineDepth: x.inlineDepth + 1, maxPaths: 2000, trackWrites: x.trackWrites}
+	if fn.TypeParams() != nil && fn.TypeParams().Len() > 0 {
+		panic("unsupported:generic helper without a contract " + fn.String())
+	}
 	sub.findLoops()
+	sub.numberCalls()
 	if len(sub.loops) > 0 {
-		panic("unsupported:inlined function with a loop " + fn.String())
+		panic("unsupported:helper " + fn.Name() + " has a loop and no contract")
 	}
 	saved := st.env
 	st.env = map[ssa.Value]Value{}
@@ -113,26 +122,45 @@ func (x *Exec) inline(st *State, fn *ssa.Function, args []Value, bindings []Valu
 	for i, fv := range fn.FreeVars {
 		st.env[fv] = bindings[i]
 	}
-	var outs []*State
-	var rets [][]Value
+	type ret struct {
+		s   *State
+		val Value
+	}
+	var rets []ret
 	sub.onReturn = func(s *State, res []Value) {
-		outs = append(outs, s)
-		rets = append(rets, res)
+		var v Value
+		switch len(res) {
+		case 0:
+			v = VTuple{}
+		case 1:
+			v = res[0]
+		default:
+			v = VTuple(res)
+		}
+		rets = append(rets, ret{s, v})
 	}
 	sub.execFrom(st, fn.Blocks[0], nil)
 	x.obs = append(x.obs, sub.obs...)
 	x.unsupported = append(x.unsupported, sub.unsupported...)
-	if len(outs) != 1 || outs[0] != st {
-		// branching helper: only single-path bodies are inlined
-		st.env = saved
-		panic("unsupported:inlined function with several return paths " + fn.String())
+	var mine *ret
+	for i := range rets {
+		r := &rets[i]
+		if r.s == st && mine == nil {
+			mine = r
+			continue
+		}
+		r.s.env = make(map[ssa.Value]Value, len(saved))
+		for k, v := range saved {
+			r.s.env[k] = v
+		}
+		x.pendingForks = append(x.pendingForks, fork{st: r.s, val: r.val})
 	}
 	st.env = saved
-	res := rets[0]
-	if len(res) == 1 {
-		return res[0]
+	if mine == nil {
+		st.dead = true
+		return VOpaque{Why: "helper did not return on this path"}
 	}
-	return VTuple(res)
+	return mine.val
 }
 
 // ---------------------------------------------------------------- built-ins
@@ -267,6 +295,11 @@ func (x *Exec) callFunction(st *State, fn *ssa.Function, args []Value, in ssa.In
 		}
 		if tb := x.V.tableFuncs[origin.Pkg.Pkg.Path()+"."+short]; tb != nil {
 			return x.tableCall(st, tb, short, args, in, cc)
+		}
+		if origin.Signature.Recv() == nil || true {
+			// a helper of the repository without a contract: loop-free, non-recursive bodies are executed in place
+			x.V.assumptionsUsed["contract-less loop-free helpers of the repository are executed in place (their strongest post-condition is computed, not assumed)"] = true
+			return x.inline(st, origin, args, nil, in)
 		}
 		x.oblige(st, "frame", fmt.Sprintf("uncontracted-call(%s)@b%d", short, blockIdx(in)), False, "call to a function of the repository that has no contract")
 		st.dead = true
